@@ -44,6 +44,10 @@ def instances(tier, seed):
                         'interleave': tier == 'thorough'})
     # CrossHair: bug hunting with a 45 s budget in the quick tier (a 'Not confirmed' without counterexample is reported as such,
     # the deciding engine is the explorer above); in the thorough tier the reduced domain must be confirmed over all paths
+    # two USER constraints for the same layer type, both anonymous functions defined in the same scope (same __qualname__)
+    for default in ('zero', 'fail'):
+        out.append({'id': f'explorer:conv2d:{default}:two_user_constraints', 'kind': 'explorer', 'nd': 2, 'default': default, 'interleave': False,
+                    'patterns': ['generic', 'dw', 'user', 'user2']})
     out.append({'id': 'crosshair', 'kind': 'crosshair', 'timeout': 45 if tier == 'quick' else 400, 'must_confirm': tier != 'quick'})
     return out
 
@@ -60,15 +64,15 @@ def reference(order, sat, default):
     return 'default:' + default
 
 
-def build_spec_and_lookup(order, default, nd, spec, user_constraint, interleave=False):
+def build_spec_and_lookup(order, default, nd, spec, user_constraint, interleave=False, user2_constraint=None):
     """runs the real code; returns the name of what the lookup yields"""
     import torch.nn as nn
     from plinio.cost import CostSpec
     from plinio.cost.cost_spec import cost_spec_zero_fn, cost_spec_fail_fn
     from plinio.cost.pattern import conv_dw_constraint, conv_3_constraint
     ltype = nn.Conv1d if nd == 1 else nn.Conv2d
-    fns = {p: (lambda s, _p=p: _p) for p in PATTERNS}
-    constr = {'generic': None, 'dw': conv_dw_constraint, 'k3': conv_3_constraint, 'user': user_constraint}
+    fns = {p: (lambda s, _p=p: _p) for p in PATTERNS + ('user2',)}
+    constr = {'generic': None, 'dw': conv_dw_constraint, 'k3': conv_3_constraint, 'user': user_constraint, 'user2': user2_constraint}
     cs = CostSpec(shared=True, default_behavior=default)
     for i, p in enumerate(order):
         if interleave:
@@ -79,7 +83,7 @@ def build_spec_and_lookup(order, default, nd, spec, user_constraint, interleave=
         fn = cs[(ltype, spec)]
     except KeyError as e:
         return 'CONFLICT' if 'conflict' in str(e).lower() else f'KeyError:{e}'
-    for p in PATTERNS:
+    for p in PATTERNS + ('user2',):
         if fn is fns[p]:
             return p
     if fn is cost_spec_zero_fn:
@@ -92,10 +96,11 @@ def build_spec_and_lookup(order, default, nd, spec, user_constraint, interleave=
 def concrete_case(rec):
     spec = {'in_channels': rec['in_channels'], 'out_channels': rec['out_channels'], 'groups': rec['groups'],
             'kernel_size': tuple(rec['kernel_size'])}
-    user = bool(rec['user'])
-    got = build_spec_and_lookup(tuple(rec['order']), rec['default'], rec['nd'], spec, lambda s: user, rec.get('interleave', False))
+    user, user2 = bool(rec['user']), bool(rec.get('user2', False))
+    got = build_spec_and_lookup(tuple(rec['order']), rec['default'], rec['nd'], spec, lambda s: user, rec.get('interleave', False), lambda s: user2)
     sat = {'dw': spec['in_channels'] == spec['groups'] and spec['out_channels'] == spec['groups'],
-           'k3': all(k == 3 for k in spec['kernel_size']), 'user': user}
+           'k3': all(k == 3 for k in spec['kernel_size']), 'user': user, 'user2': user2}
+    sat = {k: (v and k in rec['order']) for k, v in sat.items()}
     want = reference(tuple(rec['order']), sat, rec['default'])
     return got, want
 
@@ -112,8 +117,9 @@ def run_instance(p):
     nd, default = p['nd'], p['default']
     selftest = p.get('selftest', False)
     seqs = []
+    pats = tuple(p.get('patterns', PATTERNS))
     for k in range(0, 5):
-        for sub in itertools.combinations(PATTERNS, k):
+        for sub in itertools.combinations(pats, k):
             for order in itertools.permutations(sub):
                 seqs.append(order)
     tot = Explorer(timeout_ms=30000)
@@ -122,16 +128,17 @@ def run_instance(p):
             cin, cout, g = z3.Int('cin'), z3.Int('cout'), z3.Int('groups')
             ks = [z3.Int(f'k{i}') for i in range(nd)]
             u = z3.Bool('user')
+            u2 = z3.Bool('user2')
             for v in (cin, cout, g):
                 ex.assume(v >= 1, v <= 64)
             for k_ in ks:
                 ex.assume(k_ >= 1, k_ <= 7)
             spec = {'in_channels': SymScalar(cin), 'out_channels': SymScalar(cout), 'groups': SymScalar(g),
                     'kernel_size': tuple(SymScalar(k_) for k_ in ks)}
-            got = build_spec_and_lookup(order, default, nd, spec, lambda s: ex.branch(u), p.get('interleave', False))
+            got = build_spec_and_lookup(order, default, nd, spec, lambda s: ex.branch(u), p.get('interleave', False), lambda s: ex.branch(u2))
             # truth of each constraint on this path, decided by the solver (not by re-running python code)
             sat = {}
-            terms = {'dw': z3.And(cin == g, cout == g), 'k3': z3.And([k_ == 3 for k_ in ks]), 'user': u}
+            terms = {'dw': z3.And(cin == g, cout == g), 'k3': z3.And([k_ == 3 for k_ in ks]), 'user': u, 'user2': u2}
             for name, t in terms.items():
                 if name not in order:
                     sat[name] = False
@@ -149,7 +156,7 @@ def run_instance(p):
             r, m = ex.must()
             vals = {'in_channels': m.eval(cin, True).as_long(), 'out_channels': m.eval(cout, True).as_long(),
                     'groups': m.eval(g, True).as_long(), 'kernel_size': [m.eval(k_, True).as_long() for k_ in ks],
-                    'user': z3.is_true(m.eval(u, True))}
+                    'user': z3.is_true(m.eval(u, True)), 'user2': z3.is_true(m.eval(u2, True))}
             return got, want, vals
         ex = Explorer(timeout_ms=30000)
         for pc, (got, want, vals) in ex.explore(fn):
